@@ -816,6 +816,9 @@ def oracle(op: str, out: str):
                 exp.append(r[3:])
             if got != exp:
                 return "subkeys(range) is not subkey_for_path over the expanded range"
+    if k == "electrum_subkey" and out.startswith("err ") and a[3] == "0" and a[1].startswith("prv:") and len(h2s(a[2]).split("/")) in (1, 2):
+        if impl("electrum_new " + a[1]).startswith("ok ") and impl("electrum_subkey %s %s 1" % (a[1], a[2])).startswith("ok "):
+            return "electrum: private derivation raised %s where the derivation from the public copy succeeds" % out[4:]
     if k == "electrum_subkey" and out.startswith("ok ") and a[3] == "0" and not a[1].startswith(("pub:", "mpk:")):
         r = impl("electrum_subkey %s %s 1" % (a[1], a[2]))
         se, pp, mpk = out[3:].split(" ")
